@@ -6,11 +6,14 @@ pub mod extra;
 pub mod front;
 pub mod mem;
 pub mod nodes;
+pub mod once;
 pub mod race;
 pub mod replay;
+pub mod shared;
 pub mod sources;
 pub mod stress;
 pub mod trace;
+pub mod watch;
 
 pub mod c18;
 
